@@ -37,6 +37,15 @@ inductive Lbl where
   | gone (k : Nat)
   | mark (m : InFlightData)
 
+/-- the entry a label names -/
+def Lbl.key? : Lbl → Option Nat
+  | .push j _ | .pop j _ | .cut j _ | .unpop j _ | .rpush j _ | .rpop j _ | .rclear j => some j
+  | _ => none
+
+def Lbl.isCut : Lbl → Bool
+  | .cut _ _ => true
+  | _ => false
+
 /-- effect of a step on `pending_send` of the entry with key `k` -/
 def sendEff : Option Lbl → Nat → List SFrame → List SFrame
   | some (.push j f), k, q => if j = k then q ++ [f] else q
@@ -85,29 +94,34 @@ structure El (l : Option Lbl) (s s' : Streams) : Prop where
   new : ∀ k b, s.store.get? k = none → s'.store.get? k = some b →
     s.store.nextKey ≤ k ∧ k < s'.store.nextKey ∧ b.pendingSend = [] ∧ b.pendingRecv = []
   mark : marker s' = markEff l (marker s)
-  pres : ∀ k f, l = some (.push k f) → (s.store.get? k).isSome = true
+  /-- a label other than `cut` names an entry that exists -/
+  pres : ∀ l' k, l = some l' → l'.key? = some k → l'.isCut = false → (s.store.get? k).isSome = true
+  /-- `gone k`: the entry is not there afterwards -/
+  goneAbs : ∀ k, l = some (.gone k) → s'.store.get? k = none
 
 /-- which labels a function may produce -/
 structure Perm where
-  /-- message frames (anything but RST_STREAM) that may be queued, per entry -/
+  /-- frames that may be queued, per entry (RST_STREAM may also be queued wherever `cut` is permitted) -/
   push : Nat → SFrame → Prop := fun _ _ => False
   /-- the write path: `pop`, `unpop`, `mark` -/
   write : Prop := False
   cut : Nat → Prop := fun _ => False
-  rpush : Nat → Prop := fun _ => False
+  rpush : Nat → REvent → Prop := fun _ _ => False
   rpop : Nat → Prop := fun _ => False
   rclear : Nat → Prop := fun _ => False
+  /-- removal of a slab entry (`transition_after` releasing a stream, failed `send_request`) -/
+  gone : Prop := False
 
 def Perm.ok (P : Perm) : Lbl → Prop
-  | .push k f => isMsg f = false ∨ P.push k f
+  | .push k f => P.push k f ∨ (isMsg f = false ∧ P.cut k)
   | .pop _ _ => P.write
   | .unpop _ _ => P.write
   | .mark _ => P.write
   | .cut k _ => P.cut k
-  | .rpush k _ => P.rpush k
+  | .rpush k e => P.rpush k e
   | .rpop k _ => P.rpop k
   | .rclear k => P.rclear k
-  | .gone _ => True
+  | .gone _ => P.gone
 
 /-- a sequence of elementary steps, with the labels it produced -/
 inductive Path (P : Perm) : Streams → Streams → List Lbl → Prop
@@ -161,11 +175,6 @@ theorem Path.allowed {P : Perm} {s0 s : Streams} {tr : List Lbl} (h : Path P s0 
 
 theorem ES.rfl_none (a : Stream) : ES none a a := ⟨rfl, rfl, fun h => h, rfl, rfl, trivial⟩
 
-/-- the entry a label names -/
-def Lbl.key? : Lbl → Option Nat
-  | .push j _ | .pop j _ | .cut j _ | .unpop j _ | .rpush j _ | .rpop j _ | .rclear j => some j
-  | _ => none
-
 /-- an entry that a label does not name -/
 theorem ES.other (l : Lbl) (a : Stream) (h : l.key? ≠ some a.key) : ES (some l) a a := by
   refine ⟨rfl, rfl, fun h => h, ?_, ?_, ?_⟩
@@ -184,6 +193,7 @@ theorem El.of_store_eq {s s' : Streams} (h1 : s'.store = s.store) (h2 : marker s
   new := by rw [h1]; intro k b h h'; rw [h] at h'; cases h'
   mark := h2
   pres := by intro _ _ h; cases h
+  goneAbs := by intro _ h; cases h
 
 /-- same slab (the id map may differ) -/
 theorem El.of_store_eq' {s s' : Streams} (h1 : ∀ k, s'.store.get? k = s.store.get? k)
@@ -193,13 +203,14 @@ theorem El.of_store_eq' {s s' : Streams} (h1 : ∀ k, s'.store.get? k = s.store.
   new := by intro k b h h'; rw [h1, h] at h'; cases h'
   mark := h2
   pres := by intro _ _ h; cases h
+  goneAbs := by intro _ h; cases h
 
 theorem El.refl_none (s : Streams) : El none s s := .of_store_eq rfl rfl
 
 /-- replacing the entry of `b.key`, the marker untouched; `hl`: the label names no other entry -/
 theorem El.setStream {l : Option Lbl} {s : Streams} {a b : Stream} (ha : s.store.get? b.key = some a) (hab : ES l a b)
     (hl : ∀ x : Stream, x.key ≠ b.key → ES l x x) (hm : markEff l (marker s) = marker s)
-    (hp : ∀ k f, l = some (.push k f) → k = b.key) : El l s (s.setStream b) where
+    (hp : ∀ l' k, l = some l' → l'.key? = some k → k = b.key) (hng : ∀ k, l ≠ some (.gone k)) : El l s (s.setStream b) where
   nk := Nat.le_refl _
   keep := by
     intro k x hx
@@ -217,7 +228,8 @@ theorem El.setStream {l : Option Lbl} {s : Streams} {a b : Stream} (ha : s.store
     rw [Store.get?_set, h] at this
     split at this <;> cases this
   mark := hm.symm
-  pres := by intro k f e; rw [hp k f e, ha]; rfl
+  pres := by intro l' k e hk _; rw [hp l' k e hk, ha]; rfl
+  goneAbs := by intro k e; exact absurd e (hng k)
 
 theorem Store.set_absent {st : Store} {b : Stream} (h : st.get? b.key = none) : st.set b = st := by
   unfold Store.set
@@ -241,13 +253,14 @@ theorem El.panic (s : Streams) (m : String) : El none s (s.panic m) :=
 theorem El.modStream {l : Option Lbl} (s : Streams) (k : Nat) (f : Stream → Stream)
     (hf : ∀ a, s.store.get? k = some a → ES l a (f a))
     (hl : ∀ x : Stream, x.key ≠ k → ES l x x) (hm : markEff l (marker s) = marker s)
-    (hp : ∀ j g, l = some (.push j g) → j = k) : (s.store.get? k).isSome = true → El l s (s.modStream k f) := by
+    (hp : ∀ l' j, l = some l' → l'.key? = some j → j = k) (hng : ∀ k, l ≠ some (.gone k)) :
+    (s.store.get? k).isSome = true → El l s (s.modStream k f) := by
   intro hs
   obtain ⟨a, ha⟩ := Option.isSome_iff_exists.mp hs
   unfold Streams.modStream; rw [ha]
   have h := hf a ha
   have hk : (f a).key = k := by rw [h.key]; exact Store.get?_key ha
-  exact El.setStream (by rw [hk]; exact ha) h (by rw [hk]; exact hl) hm (by rw [hk]; exact hp)
+  exact El.setStream (by rw [hk]; exact ha) h (by rw [hk]; exact hl) hm (by rw [hk]; exact hp) hng
 
 theorem modStream_absent {s : Streams} {k : Nat} (f : Stream → Stream) (h : s.store.get? k = none) :
     s.modStream k f = s.panic s!"dangling store key {k}" := by
